@@ -191,8 +191,9 @@ func ReadRange(match string) (*IndexSelector, error) {
 		return nil, EXPECTATION_FAILED.Extend(fmt.Sprintf("failed to read range. invalid range %s", match))
 	}
 	rangeSelector := [2]int{}
+	// a bound that is left out goes to the array's edge, like begin / end
 	switch split[0] {
-	case _BEGIN:
+	case _BEGIN, "":
 		{
 			rangeSelector[0] = -1
 		}
@@ -206,7 +207,7 @@ func ReadRange(match string) (*IndexSelector, error) {
 		}
 	}
 	switch split[1] {
-	case _END:
+	case _END, "":
 		{
 			rangeSelector[1] = -1
 		}
